@@ -160,8 +160,8 @@ func (h *Transport) Unmarshal(v base.HeaderValue) error {
 
 	profileFound := false
 
-	for k, rv := range kvs {
-		v := rv
+	for _, k := range sortedKeys(kvs) {
+		v := kvs[k]
 
 		switch k {
 		case "RTP/AVP", "RTP/AVP/UDP":
